@@ -8,12 +8,15 @@ R2 rollback: the handler that undoes a partially built service catches every exc
    same peer set
 R3 uniqueness checks dominate the first insert (node sliver, top-level service sliver, backend add_node)
 R4 composite operations (>= 2 creation steps, later steps fed with derived data) need compensation - reported as findings
+R6 a rollback handler that removes id X does not also guard the call that creates X (a refused creation would delete the
+   element that already owns X)
 R5 the creation step that receives the caller's **kwargs is the first creation step of a composite (or is compensated)
 """
 import ast
 
 from ..core import AnalysisError, norm, loc, walk_no_nested, attr_chain, call_name, kwarg
 from ..cfg import CFG
+from ..normalize import inline, local_env, expand, ctext, canon
 from .. import nxgraph as nxg
 
 CONSTRUCTORS = ['fim.user.node:Node', 'fim.user.component:Component', 'fim.user.interface:Interface', 'fim.user.link:Link',
@@ -124,10 +127,17 @@ def stmt_is_rejecting(st, cls, summ):
         return 'raise'
     if isinstance(st, ast.Assert):
         return 'assert'
+    fn = st
+    while fn is not None and not isinstance(fn, (ast.FunctionDef, ast.AsyncFunctionDef)):
+        fn = getattr(fn, '_parent', None)
+    kwparam = fn.args.kwarg.arg if fn is not None and fn.args.kwarg is not None else None
     for c in walk_no_nested(st):
         if not isinstance(c, ast.Call):
             continue
         cn = call_name(c)
+        if kwparam and any(k.arg is None and isinstance(k.value, ast.Name) and k.value.id == kwparam for k in c.keywords) and \
+                not (isinstance(c.func, ast.Attribute) and isinstance(c.func.value, ast.Call) and call_name(c.func.value) == 'super'):
+            return f'{cn}() receives the caller\'s **{kwparam}, which it validates'
         if cn and cn.startswith('set_') and isinstance(c.func, ast.Attribute) and 'sliver' in ast.unparse(c.func.value):
             return f'sliver setter {cn}() validates its argument'
         if cn == 'generate_component':
@@ -161,6 +171,7 @@ def run(prog, rep):
         init = cls.methods.get('__init__')
         if init is None:
             raise AnalysisError(f'{cls.qual}.__init__ vanished')
+        init = inline(prog, cls, init)
         mod = cls.module
         fq = f'{cls.name}.__init__'
         news = [n for n in init.body if isinstance(n, ast.If) and 'ElementType.NEW' in ast.unparse(n.test)]
@@ -247,7 +258,7 @@ def run(prog, rep):
 
     # ---- R2 ----
     ns = prog.cls('fim.user.network_service:NetworkService')
-    init = ns.methods['__init__']
+    init = inline(prog, ns, ns.methods['__init__'])
     nmod = ns.module
     tries = [t for t in ast.walk(init) if isinstance(t, ast.Try) and
              any(isinstance(c, ast.Call) and call_name(c) == 'connect_interface' for st in t.body for c in ast.walk(st))]
@@ -310,6 +321,41 @@ def run(prog, rep):
     guard = [n for n in ast.walk(ci) if isinstance(n, ast.If) and 'peer' in ast.unparse(n.test) and any(isinstance(x, ast.Raise) for x in n.body)]
     if not guard:
         rep.violation('R2', loc(nmod, ci), 'NetworkService.connect_interface', 'no already-connected guard', 'an interface that already has a peer must be refused')
+
+    # ---- R6: a compensation handler only undoes what the guarded body has done ----
+    rep.rule('R6', 'a rollback handler never deletes an element whose creation is itself inside the guarded body', floor=3)
+    CREATORS = {'add_node': 'node_id', 'add_network_node_sliver': None, 'add_component_sliver': None, 'add_network_service_sliver': None,
+                'add_interface_sliver': None, 'add_network_link_sliver': None}
+    for m_, c_, f_ in prog.all_functions():
+        if not (m_.name.startswith('fim.user') or m_.name == 'fim.graph.abc_property_graph'):
+            continue
+        for tr_ in [t for t in walk_no_nested(f_) if isinstance(t, ast.Try)]:
+            for h_ in tr_.handlers:
+                for rc_ in [x for x in ast.walk(h_) if isinstance(x, ast.Call) and call_name(x) in REMOVERS]:
+                    rid = kwarg(rc_, 'node_id') or (rc_.args[0] if rc_.args else None)
+                    if rid is None:
+                        continue
+                    fq_ = (c_.name + '.' if c_ else '') + f_.name
+                    rtxt = ast.unparse(rid)
+                    inside = []
+                    for st_ in tr_.body:
+                        for x in ast.walk(st_):
+                            if isinstance(x, ast.Call) and call_name(x) in CREATORS and isinstance(x.func, ast.Attribute):
+                                cid = kwarg(x, 'node_id')
+                                if cid is None:
+                                    # sliver writers take the id from the sliver they are given
+                                    sl = [k.value for k in x.keywords if k.arg not in ('parent_node_id', 'interfaces')]
+                                    cid_txt = [ast.unparse(v) + '.node_id' for v in sl]
+                                else:
+                                    cid_txt = [ast.unparse(cid)]
+                                if rtxt in cid_txt:
+                                    inside.append(x)
+                    rep.instance('R6', f'{fq_}: handler removes {rtxt}; creations of that id inside the guarded body: {len(inside)}')
+                    for x in inside:
+                        rep.violation('R6', loc(m_, x), fq_, f'{norm(x, 70)} is guarded by the handler that removes {rtxt}',
+                                      f'the handler of this try removes {rtxt}, and the call that creates {rtxt} is inside the guarded body: when '
+                                      f'that creation itself is refused because the id is already in use, the handler deletes the element that '
+                                      f'already owned the id (with its edges) - a failed call destroys an unrelated element')
 
     # ---- R3 ----
     apg = prog.cls('fim.graph.abc_property_graph:ABCPropertyGraph')
